@@ -38,7 +38,9 @@ GENERATED_OBLIGATIONS = ["Generated.fileDestCall = EJ.stdShape"]
 RULE = ("values = random trees over the JSON-native domain (every C0 control, 0x7f, U+2028/2029, BMP edges, astral "
         "characters, +-2^63, 2^64-1, 2^64, -0.0, subnormals, 1e22, random bit-pattern floats, NaN/inf, empty containers, long "
         "keys/strings, nesting chains to depth 60 quick / 200 thorough), the documented rich types (Path, date, datetime, "
-        "time, set, complex, caller's json_default) and out-of-domain leaves (bytes, non-str keys, lone surrogates, "
+        "time, set, complex) under three default functions (eliot's json_default; a caller's function chaining to it; a caller's function "
+        "that knows only its own type and raises TypeError otherwise - dates/times must still be written, paths/sets/complex are then "
+        "out of domain), passed as json_default= or as a deprecated encoder= class, and out-of-domain leaves (bytes, non-str keys, lone surrogates, "
         "unsupported objects, aware time, over-range ints); messages = dicts of such values fed in groups of 1-6 to a "
         "binary and a text instrumented file; logging programs = nested start_action / log_message with such fields; "
         "non-trivial = the value holds an escape-requiring character, a boundary number or nesting >= 3; distinct by canonical hash")
@@ -131,7 +133,14 @@ def g_float(rng, nonfinite_ok=True):
 def g_leaf(rng, prof):
     r = rng.random()
     if prof["bad"] and r < prof["bad"]:
-        k = rng.choice(["int", "surr", "unsupported", "timetz", "surrpath"] + ([] if prof["ext"] else ["custom"]))
+        k = rng.choice(["int", "surr", "unsupported", "timetz", "surrpath"] + ([] if prof["ext"] else ["custom"])
+                       + (["ownpath", "owncomplex", "ownset"] if prof["ext"] == "own" else []))
+        if k == "ownpath":
+            return {"t": "path", "v": g_str(rng, long_ok=False)["v"]}
+        if k == "owncomplex":
+            return {"t": "complex", "re": g_float(rng)["hex"], "im": g_float(rng)["hex"]}
+        if k == "ownset":
+            return {"t": "set", "v": [g_hashable(rng) for _ in range(rng.randint(0, 3))]}
         if k == "int":
             return g_int(rng, bad=True)
         if k == "surr":
@@ -145,7 +154,8 @@ def g_leaf(rng, prof):
         return {"t": "custom", "v": {"t": "null"}}
     r = rng.random()
     if prof["rich"] and r < prof["rich"]:
-        k = rng.choice(["path", "date", "datetime", "time", "complex", "set", "custom"] if prof["ext"] else
+        k = rng.choice(["date", "datetime", "time", "custom", "custom"] if prof["ext"] == "own" else
+                       ["path", "date", "datetime", "time", "complex", "set", "custom"] if prof["ext"] else
                        ["path", "date", "datetime", "time", "complex", "set"])
         if k == "path":
             s = g_str(rng, long_ok=False)
@@ -243,7 +253,10 @@ PROFILES = [
 def pick_profile(rng):
     r = rng.random()
     name, p = PROFILES[0] if r < 0.5 else PROFILES[1] if r < 0.78 else PROFILES[2]
-    return name, dict(p, ext=rng.random() < 0.35)
+    r = rng.random()
+    # False: eliot's json_default; True: a caller's function that handles its own type and ends with eliot's json_default;
+    # "own": a caller's function that handles its own type only and raises TypeError otherwise
+    return name, dict(p, ext=False if r < 0.55 else True if r < 0.78 else "own")
 
 
 # ---- G-tree -> Python object ----------------------------------------------------------------
@@ -336,6 +349,8 @@ def bad_kinds(t, ext):
     if k == "int":
         if not -2**63 <= int(t["v"]) <= 2**64 - 1:
             out.add("intRange")
+    elif k in ("path", "set", "complex") and ext == "own":
+        out.add("unsupported")          # only eliot's json_default knows these; the caller's function does not chain to it
     elif k in ("str", "path"):
         if any(0xD800 <= c <= 0xDFFF for c in t["v"]):
             out.add("surrogate")
@@ -645,11 +660,48 @@ def default_for(ext):
     if not ext:
         return json_default
 
+    if ext == "own":
+        def own_default(o):
+            if isinstance(o, Custom):
+                return o.payload
+            raise TypeError("cannot encode %r" % (o,))
+        return own_default
+
     def caller_default(o):
         if isinstance(o, Custom):
             return o.payload
         return json_default(o)
     return caller_default
+
+
+def encoder_for(ext):
+    """the same three behaviours as a (deprecated) JSONEncoder subclass for `encoder=`"""
+    from eliot.json import EliotJSONEncoder
+    if not ext:
+        return EliotJSONEncoder
+    if ext == "own":
+        class OwnEncoder(json.JSONEncoder):
+            def default(self, o):
+                if isinstance(o, Custom):
+                    return o.payload
+                return json.JSONEncoder.default(self, o)      # raises TypeError
+        return OwnEncoder
+
+    class ChainEncoder(EliotJSONEncoder):
+        def default(self, o):
+            if isinstance(o, Custom):
+                return o.payload
+            return EliotJSONEncoder.default(self, o)
+    return ChainEncoder
+
+
+def dest_kwargs(ext, via):
+    return {"encoder": encoder_for(ext)} if via == "encoder" else {"json_default": default_for(ext)}
+
+
+def mreq(ext):
+    """how the model is told which default function is in use"""
+    return {"ext": bool(ext), "own": ext == "own"}
 
 
 def errkind(e):
@@ -721,12 +773,12 @@ def calls_for_model(calls):
     return out
 
 
-def feed_direct(msgs, ext, text):
+def feed_direct(msgs, ext, text, via="default"):
     """real FileDestination on an instrumented file; returns (calls, per-message outcome, per-message slice)"""
     from eliot import FileDestination
     rec = RecFile(text)
     try:
-        dest = FileDestination(file=rec, json_default=default_for(ext))
+        dest = FileDestination(file=rec, **dest_kwargs(ext, via))
     except Exception as e:  # noqa
         return rec.calls, [{"raised": type(e).__name__, "where": "constructor"}], []
     outcomes, slices = [], []
@@ -910,7 +962,7 @@ def run_program(ops):
                 pass
 
 
-def feed_logging(ops, ext):
+def feed_logging(ops, ext, via="default"):
     """to_file(binary rec) + to_file(text rec) + a capturing destination, then the program"""
     import eliot
     from eliot._output import Logger, FileDestination
@@ -922,8 +974,8 @@ def feed_logging(ops, ext):
     err = None
     try:
         eliot.add_destinations(cap)
-        eliot.to_file(recb, json_default=default_for(ext))
-        eliot.to_file(rect, json_default=default_for(ext))
+        eliot.to_file(recb, **dest_kwargs(ext, via))
+        eliot.to_file(rect, **dest_kwargs(ext, via))
         run_program(ops)
     except Exception as e:  # noqa
         err = type(e).__name__
@@ -1019,7 +1071,7 @@ def run(ctx):
             report_unfaithful(ctx, "encoder: %s" % why, g, ext, case)
             ctx.count("tie-skipped:oracle-failed")
         else:
-            reqs.append({"op": "dumps", "ext": ext, "v": tree_of(obj)})
+            reqs.append(dict(mreq(ext), op="dumps", v=tree_of(obj)))
             after.append(("dumps", (case, real, bad)))
         if not bad and "t_err" in real and "b_err" not in real:
             ctx.violation("a value of the documented domain was refused by the text encoder: %s" % real.get("t_err"), case)
@@ -1061,18 +1113,19 @@ def run(ctx):
         msgs = [g_message(grng, prof, top_dict=grng.random() < 0.93) for _ in range(n)]
         if gi % 9 == 0:
             msgs.append({"t": "dict", "v": [[{"t": "str", "v": [100]}, g_chain(grng, prof, grng.choice([5, 40, maxchain - 2]))]]})
-        case = {"kind": "file", "msgs": msgs, "ext": ext}
+        via = "encoder" if grng.random() < 0.25 else "default"
+        case = {"kind": "file", "msgs": msgs, "ext": ext, "via": via}
         objs = [build(m) for m in msgs]
         bad = [bool(bad_kinds(m, ext)) for m in msgs]
         fs = [features(m) for m in msgs]
         ctx.case(case, nontrivial=any(e or b or d >= 3 for e, b, d, _ in fs),
-                 tags=["file-group", "profile:" + pname, "group-size:%d" % len(msgs)] + (["group-with-refusal"] if any(bad) else []))
+                 tags=["file-group", "profile:" + pname, "group-size:%d" % len(msgs), "file-ext:%s" % ext, "via:" + via] + (["group-with-refusal"] if any(bad) else []))
         res = {}
         for text in (False, True):
-            calls, outcomes, slices = feed_direct(objs, ext, text)
+            calls, outcomes, slices = feed_direct(objs, ext, text, via)
             res[text] = calls
             if oracle_direct(ctx, case, objs, bad, ext, text, calls, outcomes, slices):
-                reqs.append({"op": "file", "mode": "text" if text else "binary", "ext": ext, "msgs": [tree_of(o) for o in objs]})
+                reqs.append(dict(mreq(ext), op="file", mode="text" if text else "binary", msgs=[tree_of(o) for o in objs]))
                 after.append(("file", (case, "text" if text else "binary", calls_for_model(calls))))
             else:
                 ctx.count("tie-skipped:oracle-failed")
@@ -1095,9 +1148,10 @@ def run(ctx):
         prof = dict(prof, bad=0.0 if prng.random() < 0.85 else prof["bad"])
         ext = prof["ext"]
         ops = g_program(prng, prof, 3)
-        case = {"kind": "logging", "ops": ops, "ext": ext}
-        callsb, callst, captured, err = feed_logging(ops, ext)
-        ctx.case(case, nontrivial=len(captured) >= 3, tags=["logging-program", "profile:" + pname])
+        via = "encoder" if prng.random() < 0.25 else "default"
+        case = {"kind": "logging", "ops": ops, "ext": ext, "via": via}
+        callsb, callst, captured, err = feed_logging(ops, ext, via)
+        ctx.case(case, nontrivial=len(captured) >= 3, tags=["logging-program", "profile:" + pname, "logging-ext:%s" % ext, "via:" + via])
         ctx.count("messages-logged", n=len(captured))
         # messages the encoder itself refuses are reported by eliot as eliot:destination_failure messages;
         # the oracle is only about messages the destination accepted, so refuse-free programs only
@@ -1118,7 +1172,7 @@ def run(ctx):
         if not ok:
             ctx.count("tie-skipped:oracle-failed")
         for text, calls in ((False, callsb), (True, callst)) if ok else ():
-            reqs.append({"op": "file", "mode": "text" if text else "binary", "ext": ext, "msgs": [tree_of(m) for m in captured]})
+            reqs.append(dict(mreq(ext), op="file", mode="text" if text else "binary", msgs=[tree_of(m) for m in captured]))
             after.append(("file", (case, "text" if text else "binary", calls_for_model(calls))))
 
     # -- 5. the model on all of it ------------------------------------------------------------------------
@@ -1263,7 +1317,7 @@ def replay(ctx, obj):
         res = {}
         base = {k: v for k, v in case.items() if k not in ("only", "mode")}
         for text in (False, True):
-            calls, outcomes, slices = feed_direct(objs, ext, text)
+            calls, outcomes, slices = feed_direct(objs, ext, text, case.get("via", "default"))
             res[text] = calls
             print("text" if text else "binary", [(c[0], c[1][:80] if c[0] == "w" else None) for c in calls])
             oracle_direct(ctx, base, objs, bad, ext, text, calls, outcomes, slices)
@@ -1275,7 +1329,7 @@ def replay(ctx, obj):
             ctx.violation("text-mode content differs from binary-mode content", base)
     elif kind == "logging":
         base = {k: v for k, v in case.items() if k not in ("only",)}
-        callsb, callst, captured, err = feed_logging(case["ops"], ext)
+        callsb, callst, captured, err = feed_logging(case["ops"], ext, case.get("via", "default"))
         print("binary", [(c[0], c[1][:80] if c[0] == "w" else None) for c in callsb])
         oracle_logging(ctx, base, ext, callsb, callst, captured, err)
     elif kind == "loads":
